@@ -6,6 +6,7 @@ Interleavings of the aggregation path and the sync path on one node are exactly 
 "for all op lists" below.
 -/
 import Drand.Chain.Stack
+import Drand.Chain.Generic
 import DrandProofs.C18
 import Gen.Locks
 
@@ -380,8 +381,259 @@ theorem c02_failed_write_no_effect (s : Stack) (b : Beacon) : (s.putFailing b).1
 makes a concurrent execution of the aggregation and sync paths a *sequence* of `Stack.put`s -/
 theorem tie_appendStore_locked : Gen.appendStorePutLocked = true ∧ Gen.schemeStorePutLocked = true := by decide
 
+/-! ### the stack over an abstract base store: answered ok ⇒ stored -/
+
+private theorem schemePut_eq {σ : Type} (B : Base σ) (s : GStack σ) (b : Beacon) :
+    s.schemePut B b =
+      if s.chained = true ∧ s.schemeLast.sig ≠ b.prev then (s, .done .badPrev)
+      else if (B.put s.base (stored s.chained b)).2 = true then
+        ({ s with base := (B.put s.base (stored s.chained b)).1, schemeLast := stored s.chained b, appendLast := stored s.chained b }, .done .ok)
+      else ({ s with base := (B.put s.base (stored s.chained b)).1 }, .writeErr) := by
+  unfold GStack.schemePut stored
+  cases hc : s.chained
+  · simp
+  · by_cases hp : s.schemeLast.sig = b.prev <;> simp [hp]
+
+private theorem gput_eq {σ : Type} (B : Base σ) (s : GStack σ) (b : Beacon) :
+    s.put B b = s.schemePut B b ∨ ((s.put B b).1 = s ∧ ∃ r, (s.put B b).2 = .done r ∧ r ≠ .ok) := by
+  unfold GStack.put
+  split
+  · right
+    split
+    · split
+      · exact ⟨rfl, _, rfl, by simp⟩
+      · exact ⟨rfl, _, rfl, by simp⟩
+    · exact ⟨rfl, _, rfl, by simp⟩
+  · split
+    · right; exact ⟨rfl, _, rfl, by simp⟩
+    · left; rfl
+
+/-- **c02_put_ok_stored.** For the stack over *any* base store that meets the map specification: whenever the stack's `Put`
+answers ok, the beacon (with the previous signature stripped on unchained schemes) is readable from the base store under
+its round, both wrappers' cached head is that beacon, and no other round changed. -/
+theorem c02_put_ok_stored {σ : Type} (B : Base σ) (hB : MapSpec B) (s : GStack σ) (b : Beacon)
+    (hok : (s.put B b).2 = .done .ok) :
+    B.get (s.put B b).1.base b.round = some (stored s.chained b) ∧
+    (s.put B b).1.appendLast = stored s.chained b ∧ (s.put B b).1.schemeLast = stored s.chained b ∧
+    ∀ r, r ≠ b.round → B.get (s.put B b).1.base r = B.get s.base r := by
+  have hround : (stored s.chained b).round = b.round := by unfold stored; split <;> rfl
+  rcases gput_eq B s b with he | ⟨_, r, hr, hne⟩
+  · rw [he] at hok ⊢
+    rw [schemePut_eq] at hok ⊢
+    split at hok
+    · cases hok
+    · next h1 =>
+      rw [if_neg h1]
+      split at hok
+      · next hw =>
+        rw [if_pos hw]
+        refine ⟨?_, rfl, rfl, ?_⟩
+        · have := hB.put_ok_get s.base (stored s.chained b) hw
+          rw [hround] at this
+          exact this
+        · intro r hr
+          exact hB.put_ok_other s.base (stored s.chained b) r (by rw [hround]; exact hr)
+      · cases hok
+  · rw [hr] at hok
+    cases hok
+    exact absurd rfl hne
+
+/-- **c02_put_err_no_effect.** … and whenever it answers anything else (a refusal of the wrappers, or the error of the
+store below — a cancelled context, a failed write), every round reads as before and neither wrapper moved its head. -/
+theorem c02_put_err_no_effect {σ : Type} (B : Base σ) (hB : MapSpec B) (s : GStack σ) (b : Beacon)
+    (hno : (s.put B b).2 ≠ .done .ok) :
+    (∀ r, B.get (s.put B b).1.base r = B.get s.base r) ∧
+    (s.put B b).1.appendLast = s.appendLast ∧ (s.put B b).1.schemeLast = s.schemeLast := by
+  rcases gput_eq B s b with he | ⟨hs, _⟩
+  · rw [he] at hno ⊢
+    rw [schemePut_eq] at hno ⊢
+    split
+    · exact ⟨fun _ => rfl, rfl, rfl⟩
+    · next h1 =>
+      rw [if_neg h1] at hno
+      split
+      · next hw => rw [if_pos hw] at hno; exact absurd rfl hno
+      · next hw =>
+        have hw' : (B.put s.base (stored s.chained b)).2 = false := by simpa using hw
+        exact ⟨fun r => hB.put_err _ _ r hw', rfl, rfl⟩
+  · rw [hs]; exact ⟨fun _ => rfl, rfl, rfl⟩
+
+/-- the sorted map of C18 meets the specification (every `Put` succeeds) … -/
+theorem boltBase_spec : MapSpec boltBase where
+  put_ok_get := fun s b _ => by simp [boltBase, Bolt.put, c18_lookup_insert]
+  put_ok_other := fun s b r hr => by simp [boltBase, Bolt.put, c18_lookup_insert, hr]
+  put_err := fun s b r h => by simp [boltBase] at h
+
+/-- **c02_stack_is_generic.** … and the stack model the other C02 theorems are about is the generic stack over it. -/
+theorem c02_stack_is_generic (s : Stack) (b : Beacon) :
+    s.toG.put boltBase b = ((s.put b).1.toG, .done (s.put b).2) ∧ MapSpec boltBase := by
+  refine ⟨?_, boltBase_spec⟩
+  unfold GStack.put Stack.put Stack.toG
+  simp only
+  split
+  · split
+    · split <;> rfl
+    · rfl
+  · split
+    · rfl
+    · unfold GStack.schemePut Stack.schemePut boltBase
+      simp only
+      split
+      · split <;> rfl
+      · rfl
+
+/-- **c02_put_ok_stored_counterexample.** The map specification is needed: over a base store that answers nil to a `Put` it
+did not perform (`lyingBase`, told to drop the next write — what `BoltStore.Put` does when it returns nil out of a write
+transaction it abandoned because its context was cancelled), the stack answers ok for round 1 and for round 2, and the
+persisted chain is 0, 2: round 1 is missing for good, the invariant of `c02_chain_inv` is broken. -/
+theorem c02_put_ok_stored_counterexample :
+    let s0 : GStack (BoltState × Bool) := ⟨false, (Bolt.put [] (genesis [0xaa]), true), genesis [0xaa], genesis [0xaa]⟩
+    let r1 := s0.put lyingBase ⟨1, [0xb1], []⟩
+    let r2 := r1.1.put lyingBase ⟨2, [0xb2], []⟩
+    r1.2 = .done .ok ∧ r2.2 = .done .ok ∧
+    lyingBase.get r2.1.base 1 = none ∧ (lyingBase.get r2.1.base 2).isSome = true ∧ r2.1.base.1.map (·.1) = [0, 2] ∧
+    ¬ ChainInv ⟨false, r2.1.base.1, r2.1.appendLast, r2.1.schemeLast⟩ := by
+  refine ⟨by decide, by decide, by decide, by decide, by decide, ?_⟩
+  intro h
+  have h1 := (h.dense 1).2
+  revert h1
+  decide
+
+/-! ### concurrent writers of the same round -/
+
+private theorem same_round_refused (s : Stack) (b : Beacon) (h : b.round = s.appendLast.round) :
+    (s.put b).1 = s ∧ (s.put b).2 ≠ .ok := by
+  unfold Stack.put
+  rw [if_pos h]
+  split
+  · split <;> exact ⟨rfl, by simp⟩
+  · exact ⟨rfl, by simp⟩
+
+private theorem putAll_same_round (s : Stack) (bs : List Beacon) (h : ∀ b ∈ bs, b.round = s.appendLast.round) :
+    (s.putAll bs).1 = s ∧ ∀ r ∈ (s.putAll bs).2, r ≠ .ok := by
+  induction bs with
+  | nil => exact ⟨rfl, fun _ hr => by cases hr⟩
+  | cons b rest ih =>
+    obtain ⟨h1, h2⟩ := same_round_refused s b (h b List.mem_cons_self)
+    have ih := ih (fun x hx => h x (List.mem_cons_of_mem _ hx))
+    unfold Stack.putAll
+    simp only [h1]
+    refine ⟨ih.1, ?_⟩
+    intro r hr
+    rcases List.mem_cons.1 hr with rfl | hr
+    · exact h2
+    · exact ih.2 r hr
+
+private theorem count_ok_zero {l : List PutRes} (h : ∀ r ∈ l, r ≠ .ok) : l.count .ok = 0 :=
+  List.count_eq_zero.2 (fun hm => h _ hm rfl)
+
+/-- **c02_concurrent_same_round_one_winner.** `k` writers (the aggregator, the sync manager, …) Put beacons of the next round
+`head+1` at the same time. `appendStore.Put` holds its mutex for its whole body (`tie_appendStore_locked`), so the execution
+is the `k` Puts in *some* order — any list `bs`. Then at most one Put answers ok; one does exactly when some beacon of the
+list is acceptable to the state before the race; the store afterwards is the store after the *first* acceptable beacon of
+the list alone; every other Put is told `already` / `dup-diff-…` / a refusal and changes nothing. (As `callbackStore.Put`
+dispatches once per Put that answered nil, the callbacks fire once for the round — `c11_dispatch_once`.) -/
+theorem c02_concurrent_same_round_one_winner (s : Stack) (h : ChainInv s) (bs : List Beacon)
+    (hr : ∀ b ∈ bs, b.round = (Stack.last s.base).round + 1) :
+    (s.putAll bs).2.count .ok = (if ∃ b ∈ bs, (s.put b).2 = .ok then 1 else 0) ∧
+    (s.putAll bs).1 = (match bs.find? (fun b => decide ((s.put b).2 = .ok)) with
+                       | some b => (s.put b).1
+                       | none => s) ∧
+    (s.putAll bs).2.length = bs.length := by
+  induction bs with
+  | nil => simp [Stack.putAll]
+  | cons b rest ih =>
+    have hrest : ∀ x ∈ rest, x.round = (Stack.last s.base).round + 1 := fun x hx => hr x (List.mem_cons_of_mem _ hx)
+    have ih := ih hrest
+    by_cases hb : (s.put b).2 = .ok
+    · -- b wins; everybody after it is refused
+      have hs' : ∀ x ∈ rest, x.round = (s.put b).1.appendLast.round := by
+        intro x hx
+        rcases put_cases s b h with ⟨hno, _⟩ | ⟨_, hbr, b', hb', _, hst⟩
+        · exact absurd hb hno
+        · rw [hst]
+          simp only
+          rw [hb', hbr]
+          exact hrest x hx
+      obtain ⟨q1, q2⟩ := putAll_same_round (s.put b).1 rest hs'
+      unfold Stack.putAll
+      simp only
+      refine ⟨?_, ?_, ?_⟩
+      · have hex : ∃ x ∈ b :: rest, (s.put x).2 = .ok := ⟨b, List.mem_cons_self, hb⟩
+        rw [if_pos hex, List.count_cons, count_ok_zero q2]
+        simp [hb]
+      · rw [q1, List.find?_cons]
+        simp [hb]
+      · simp only [List.length_cons]
+        have := ih.2.2
+        -- the answers are one per Put whatever the state
+        have hl : ∀ (t : Stack) (l : List Beacon), (t.putAll l).2.length = l.length := by
+          intro t l
+          induction l generalizing t with
+          | nil => rfl
+          | cons y l ihl => unfold Stack.putAll; simp [ihl]
+        rw [hl]
+    · -- b is refused: nothing changed, the race goes on among the rest
+      have hst : (s.put b).1 = s := by
+        rcases put_cases s b h with ⟨_, hst⟩ | ⟨hok, _⟩
+        · exact hst
+        · exact absurd hok hb
+      unfold Stack.putAll
+      simp only [hst]
+      refine ⟨?_, ?_, ?_⟩
+      · rw [List.count_cons, ih.1]
+        have hne : ((s.put b).2 == PutRes.ok) = false := by simpa using hb
+        simp only [hne, Bool.false_eq_true, if_false, Nat.add_zero]
+        congr 1
+        apply propext
+        constructor
+        · rintro ⟨x, hx, hxo⟩; exact ⟨x, List.mem_cons_of_mem _ hx, hxo⟩
+        · rintro ⟨x, hx, hxo⟩
+          rcases List.mem_cons.1 hx with rfl | hx
+          · exact absurd hxo hb
+          · exact ⟨x, hx, hxo⟩
+      · rw [ih.2.1, List.find?_cons]
+        simp [hb]
+      · simp [ih.2.2]
+
+/-- **c02_concurrent_unchained_first_wins.** On an unchained scheme every beacon of round `head+1` is acceptable (the scheme
+store checks nothing), so for any non-empty list of concurrent Puts of that round — the same beacon `k` times, or `k`
+different signatures — exactly one answers ok: the first of the order; what is stored is that beacon (previous signature
+stripped), and the answers are `ok` followed by refusals only. -/
+theorem c02_concurrent_unchained_first_wins (s : Stack) (h : ChainInv s) (hc : s.chained = false) (b : Beacon) (rest : List Beacon)
+    (hr : ∀ x ∈ b :: rest, x.round = (Stack.last s.base).round + 1) :
+    (s.putAll (b :: rest)).2.count .ok = 1 ∧
+    (s.putAll (b :: rest)).2.head? = some .ok ∧
+    (s.putAll (b :: rest)).1.base = Bolt.put s.base { b with prev := [] } ∧
+    lookup b.round (s.putAll (b :: rest)).1.base = some { b with prev := [] } := by
+  have hb : (s.put b).2 = .ok ∧ (s.put b).1.base = Bolt.put s.base { b with prev := [] } := by
+    have hbr := hr b List.mem_cons_self
+    have ha := h.head.1
+    unfold Stack.put
+    rw [if_neg (by rw [ha]; omega), if_neg (by rw [ha]; omega)]
+    unfold Stack.schemePut
+    simp [hc]
+  obtain ⟨c1, c2, _⟩ := c02_concurrent_same_round_one_winner s h (b :: rest) hr
+  refine ⟨?_, ?_, ?_, ?_⟩
+  · rw [c1, if_pos ⟨b, List.mem_cons_self, hb.1⟩]
+  · unfold Stack.putAll; simp [hb.1]
+  · rw [c2, List.find?_cons]; simp [hb.1, hb.2]
+  · rw [c2, List.find?_cons]
+    simp only [hb.1, decide_true]
+    rw [hb.2]
+    simp [Bolt.put, c18_lookup_insert]
+
 /-! ### non-vacuity -/
 example : (Stack.run true [0xaa] [.put ⟨1, [0xbb], [0xaa]⟩, .put ⟨2, [0xcc], [0xbb]⟩, .restart, .put ⟨2, [0xcc], [0xbb]⟩]).base
     = [(0, ⟨0, [0xaa], []⟩), (1, ⟨1, [0xbb], [0xaa]⟩), (2, ⟨2, [0xcc], [0xbb]⟩)] := by decide
+
+/-- a Put that is accepted over an honest base store is stored; the same Puts over the lying one are not -/
+example : ((Stack.init false [0xaa]).toG.put boltBase ⟨1, [0xb1], [0x77]⟩).2 = .done .ok ∧
+    boltBase.get ((Stack.init false [0xaa]).toG.put boltBase ⟨1, [0xb1], [0x77]⟩).1.base 1 = some ⟨1, [0xb1], []⟩ := by decide
+/-- three writers race for round 1 with three different signatures, in the order 2, 0, 1: writer 2 wins -/
+example : ((Stack.init false [0xaa]).putAll [⟨1, [0xc2], []⟩, ⟨1, [0xc0], []⟩, ⟨1, [0xc1], []⟩]).2 = [.ok, .dupDiffSig, .dupDiffSig] ∧
+    ((Stack.init false [0xaa]).putAll [⟨1, [0xc2], []⟩, ⟨1, [0xc0], []⟩, ⟨1, [0xc1], []⟩]).1.base.map (·.2.sig) = [[0xaa], [0xc2]] := by decide
+/-- chained: the writer with the wrong previous signature is refused, the next one wins, the third is told `already` -/
+example : ((Stack.init true [0xaa]).putAll [⟨1, [0xc2], [0x00]⟩, ⟨1, [0xc0], [0xaa]⟩, ⟨1, [0xc0], [0xaa]⟩]).2 = [.badPrev, .ok, .already] := by decide
 
 end Drand.Chain
